@@ -204,3 +204,17 @@ Proof.
 Qed.
 Lemma eq_xor_self_r a x : weq a (wxor x a) = wiszero x.
 Proof. rewrite xor_comm. apply eq_xor_self. Qed.
+
+Lemma and_const_shl c s y : 0 <= s < 256 -> wand c (wshl s y) = wshl s (wand (wshr s c) y).
+Proof.
+  intros Hs. unfold wand, wshl, wshr, wrap.
+  destruct (Z.ltb_spec s 256) as [_|?]; [|lia].
+  unfold W. rewrite <- !Z.land_ones by lia. rewrite <- !Z.shiftl_mul_pow2 by lia.
+  rewrite <- Z.shiftr_div_pow2 by lia.
+  apply Z.bits_inj'; intros n Hn.
+  rewrite !Z.land_spec. destruct (Z_lt_le_dec n s) as [L|L].
+  - rewrite !Z.shiftl_spec_low by lia. rewrite andb_false_l, andb_false_r. reflexivity.
+  - rewrite !Z.shiftl_spec by lia. rewrite Z.land_spec, Z.shiftr_spec by lia.
+    replace (n - s + s) with n by lia.
+    destruct (Z.testbit c n), (Z.testbit y (n - s)), (Z.testbit (Z.ones 256) n); reflexivity.
+Qed.
